@@ -301,6 +301,9 @@ func (g *gen) writeExprBinaryOp(b *buffer, n *a.Expr, depth uint32) error {
 		}
 		b.printf("wuffs_base__u%d__sat_%s", uBits, uOp)
 		opName = ", "
+		// The C function's result already has the (possibly small) integer
+		// type. A cast here would wrap both comma-separated arguments.
+		overallCast = false
 
 	case t.IDXBinaryAs:
 		return g.writeExprAs(b, n.LHS().AsExpr(), n.RHS().AsTypeExpr(), depth)
